@@ -783,7 +783,7 @@ fn gen_leaf(rng: &mut Rng, fns: &[String], has_data: bool, fail: bool) -> S {
         9 => S::Let(rng.pick(&["P", "Q"]).to_string(), Some(vec![gen_num(rng, 0, fns)]), gen_num(rng, 1, fns)),
         10 => S::Let("M".to_string(), Some(vec![E::Num(rng.pick(&[0.0, 1.0, 2.0])), E::Num(rng.pick(&[0.0, 3.0]))]), gen_num(rng, 1, fns)),
         11 if has_data => {
-            let n = rng.range(1, 2);
+            let n = rng.range(1, 4);
             S::Read((0..n).map(|_| if rng.chance(1, 3) { (svar(rng), None) } else { (nvar(rng), None) }).collect())
         }
         12 if has_data => S::Restore,
@@ -832,9 +832,22 @@ pub fn gen_program(rng: &mut Rng, allow_else_resume: bool) -> (Program, Vec<&'st
         };
         lines.push(vec![S::Def("FNA".into(), vec!["X".into()], body)]);
         fns.push("FNA".into());
-        if rng.chance(1, 2) {
-            lines.push(vec![S::Def("FNB".into(), vec!["Y".into()], E::Bin("+", Box::new(E::Call("FNA".into(), vec![E::Var("Y".into())])), Box::new(E::Var("X".into()))))]);
-            fns.push("FNB".into());
+        match rng.below(4) {
+            0..=1 => {
+                lines.push(vec![S::Def("FNB".into(), vec!["Y".into()], E::Bin("+", Box::new(E::Call("FNA".into(), vec![E::Var("Y".into())])), Box::new(E::Var("X".into()))))]);
+                fns.push("FNB".into());
+            }
+            2 => {
+                // the caller binds the SAME parameter name to a different value: the innermost binding wins in the callee,
+                // the caller's own binding is back after the call
+                lines.push(vec![S::Def(
+                    "FNB".into(),
+                    vec!["X".into()],
+                    E::Bin("+", Box::new(E::Call("FNA".into(), vec![E::Bin("*", Box::new(E::Var("X".into())), Box::new(E::Num(10.0)))])), Box::new(E::Var("X".into()))),
+                )]);
+                fns.push("FNB".into());
+            }
+            _ => {}
         }
         feats.push("def");
     }
@@ -918,10 +931,26 @@ pub fn gen_program(rng: &mut Rng, allow_else_resume: bool) -> (Program, Vec<&'st
         }
     }
     if has_data {
-        let n = rng.range(1, 4);
-        let items: Vec<String> = (0..n).map(|_| rng.pick(&["1", "2.5", "hello", "\"a, b\"", "7", "-3", "x y", "\"\""]).to_string()).collect();
-        lines.push(vec![S::Data(items)]);
-        feats.push("data");
+        // one to three DATA statements, possibly in the middle of the program: READ crosses from one to the next, RESTORE goes back to the first
+        let k = rng.pick(&[1usize, 1, 2, 3]);
+        for j in 0..k {
+            let n = rng.range(1, 4);
+            let items: Vec<String> = (0..n).map(|_| rng.pick(&["1", "2.5", "hello", "\"a, b\"", "7", "-3", "x y", "\"\""]).to_string()).collect();
+            if j > 0 && rng.chance(1, 2) && lines.len() > 1 {
+                let at = rng.range(0, lines.len() - 1);
+                lines.insert(at, vec![S::Data(items)]);
+            } else {
+                lines.push(vec![S::Data(items)]);
+            }
+        }
+        feats.push(if k > 1 { "data-multi" } else { "data" });
+        if k > 1 && rng.chance(2, 3) {
+            // read past the first DATA statement, go back, read again
+            let vars = |n: usize| (0..n).map(|i| (["A$", "B$", "S$"][i % 3].to_string(), None)).collect::<Vec<_>>();
+            lines.push(vec![S::Read(vars(rng.range(2, 4)))]);
+            lines.push(vec![S::Restore, S::Read(vars(rng.range(1, 2)))]);
+            lines.push(vec![S::Print(vec![(E::Var("A$".into()), ';'), (E::Var("B$".into()), ';')], false)]);
+        }
     }
     let mut prog: Program = lines.into_iter().enumerate().map(|(i, ss)| (((i + 1) * 10) as u64, ss)).collect();
     if has_sub {
